@@ -165,7 +165,7 @@ impl Prop for C01 {
         Ok(())
     }
     fn rule(&self) -> String {
-        "generated (site incl. poles, GMT offset within 6 h of lon/15, method, date from the hot-window mixture) plus a grid of 24 meridians x dates (quick: every Mar 17-24 plus Jan 1-2, Feb 28/29, Mar 1 and Dec 31 of 1600-2399; thorough: every date 1600-2399). Every case is a real evaluation against the ephemeris; non-trivial = in a hot class (RA-wrap window, Feb 25-Mar 3, year end, |lat| >= 66.56, GMT mismatch >= 3 h); distinct by hash of the case".into()
+        "generated (site incl. poles, GMT offset within 6 h of lon/15, method, date from the hot-window mixture) plus a grid of 24 meridians x dates (quick: every Mar 17-24 plus Jan 1-2, Feb 28/29, Mar 1 and Dec 31 of 1600-2399; thorough: every date 1600-2399). Every case is a real evaluation against the ephemeris; non-trivial = in a hot class (RA-wrap window, Feb 25-Mar 3, year end, |lat| >= 66.56, GMT mismatch >= 3 h); distinct by hash of the case One generated case in 6 has its local midnight within 12 minutes of the RA wrap (site constructed from the oracle); every case is preceded by a priming call with a sibling input on the same thread.".into()
     }
     fn assumptions(&self) -> Vec<String> {
         vec![
